@@ -503,11 +503,21 @@ func (e *Env) Close() {
 	case <-done:
 	case <-time.After(10 * time.Second):
 	}
-	if e.Mode == "syncing" {
-		e.V.Stop(false)
+	done2 := make(chan struct{})
+	go func() {
+		defer close(done2)
+		defer func() { recover() }()
+		if e.Mode == "syncing" {
+			e.V.Stop(false)
+		}
+		e.Net.Close()
+		e.V.WAL.Stop()
+	}()
+	select {
+	case <-done2:
+	case <-time.After(15 * time.Second): // a leaked consensus mutex (already reported) blocks the node's Stop
+		return // keep the scratch directory: goroutines of the abandoned node may still use it
 	}
-	e.Net.Close()
-	func() { defer func() { recover() }(); e.V.WAL.Stop() }()
 	os.RemoveAll(e.Dir)
 }
 
